@@ -120,6 +120,7 @@ type driver struct {
 	storm     int
 	forged    int
 	nonDHCP   int
+	altDNS    bool      // the handler currently runs with the changed configuration (DhcpAltDNS)
 	scribbleP float64   // probability that the shared buffer is scribbled over after a step
 	txlog     bool      // log every non-storm frame written during the step (hex) and wait for forged frames
 	tx        []string
@@ -156,8 +157,16 @@ func (d *driver) newSession() error {
 	return nil
 }
 
+// dns is the DNS server of the configuration the handler currently runs with.
+func (d *driver) dns() netip.Addr {
+	if d.altDNS {
+		return vh.DhcpAltDNS
+	}
+	return d.nw.DNS
+}
+
 func (d *driver) newHandler() (err error) {
-	c := dhcp.Config{Mode: modeOf(d.mode), NetfilterIP: d.nw.Netfilter, DNSServer: d.nw.DNS, LeaseFilename: d.file}
+	c := dhcp.Config{Mode: modeOf(d.mode), NetfilterIP: d.nw.Netfilter, DNSServer: d.dns(), LeaseFilename: d.file}
 	d.h, err = c.New(d.s)
 	return err
 }
@@ -171,6 +180,7 @@ func (d *driver) reset(cfg int, mode string, storm bool) error {
 	}
 	os.Remove(d.file)
 	d.fileStamp = ""
+	d.altDNS = false
 	d.lastOffer, d.lastAck = map[string]int{}, map[string]int{}
 	if storm {
 		dhcp.VerifResetStorm()
@@ -366,7 +376,7 @@ func (d *driver) abstractReply(m *vh.DhcpMsg) ReplyP {
 		r.DNS = "other"
 		if len(v) == 4 {
 			switch netip.AddrFrom4([4]byte{v[0], v[1], v[2], v[3]}) {
-			case d.nw.DNS:
+			case d.dns():
 				r.DNS = "cfg"
 			case netip.MustParseAddr("1.1.1.3"):
 				r.DNS = "fam"
@@ -612,6 +622,26 @@ func (d *driver) step(a action) (rec map[string]interface{}) {
 	case "restart":
 		d.settle()
 		d.flushFrames()
+		if err := d.newSession(); err != nil {
+			panic("session: " + err.Error())
+		}
+		if err := d.newHandler(); err != nil {
+			perr = "new: " + err.Error()
+		}
+	case "reload":
+		// a new handler on the same lease file and the same session
+		d.settle()
+		if d.h != nil {
+			d.h.Close()
+		}
+		if err := d.newHandler(); err != nil {
+			perr = "new: " + err.Error()
+		}
+	case "reconf":
+		// process restart with a changed configuration (DNS server) on the surviving lease file
+		d.settle()
+		d.flushFrames()
+		d.altDNS = !d.altDNS
 		if err := d.newSession(); err != nil {
 			panic("session: " + err.Error())
 		}
